@@ -318,7 +318,10 @@ pub fn run_slice_case(ctx: &mut MemCtx, ents: &[SliceEntry], c: &SliceCase, seed
     let pre = content(el, c.len, 50, c.round, &mut rng);
     let pre_bytes = to_bytes(el, &pre);
     let nbytes = c.len * es;
-    arena::announce(&c.label(e));
+    arena::announce(&format!(
+        "{{\"kind\":\"slice\",\"type\":\"{}\",\"fn\":\"{}\",\"write\":{},\"len\":{},\"misalign\":{},\"place\":\"{:?}\",\"round\":{}}}",
+        e.ty.name(), if c.write { e.wname } else { e.rname }, c.write, c.len, c.k, c.place, c.round
+    ));
 
     // value to write: pairwise distinct, hidden lanes poisoned with something recognisable
     let vbits = content(el, n, 1, c.round, &mut rng);
@@ -520,7 +523,7 @@ pub fn run_index_case(ents: &[IndexEntry], c: &IndexCase, seed: u64) -> (Option<
         recv = hidden::with_hidden_bits(&recv, &h);
     }
     let before = full_image(&recv);
-    arena::announce(&format!("{name} i={} j={} round={}", c.i as i64, c.j as i64, c.round));
+    arena::announce(&format!("{{\"kind\":\"index\",\"fn\":\"{}\",\"i\":{},\"j\":{},\"round\":{}}}", e.name, c.i as i64, c.j as i64, c.round));
     let r = util::catch(|| (e.call)(&mut recv, c.i, c.j, &aux));
     let after = full_image(&recv);
     let in_range = c.i < e.limit && (e.kind != IdxKind::Minor || c.j < e.limit);
@@ -598,7 +601,7 @@ pub fn run_index_case(ents: &[IndexEntry], c: &IndexCase, seed: u64) -> (Option<
 
 // ---------------------------------------------------------------------------------------------
 
-pub fn all_slice_cases(ents: &[SliceEntry], rounds: usize, quick_subset: bool) -> Vec<SliceCase> {
+pub fn all_slice_cases(ents: &[SliceEntry], rounds: usize, quick_subset: bool, heap: bool) -> Vec<SliceCase> {
     let mut v = Vec::new();
     for (ei, e) in ents.iter().enumerate() {
         let n = e.ty.n();
@@ -609,7 +612,11 @@ pub fn all_slice_cases(ents: &[SliceEntry], rounds: usize, quick_subset: bool) -
                         continue;
                     }
                     for place in PLACES {
+                        if heap && place == Place::Head {
+                            continue; // exact-size heap buffers: head/tail placements coincide
+                        }
                         let ks: &[usize] = match place {
+                            Place::Interior if heap => &[1],
                             Place::Interior => if quick_subset { &[0, 1] } else { &[0, 1, 2, 3] },
                             _ => &[0],
                         };
@@ -653,16 +660,21 @@ fn replay_json(case: J, seed: u64, mem: Mem, class: &str, detail: &str) -> J {
 }
 
 /// Single-threaded on purpose: the crash monitor names *the* announced case.
-pub fn run(seed: u64, rounds: usize, mem: Mem, quick_subset: bool) -> Summary {
+pub fn run(seed: u64, rounds: usize, mem: Mem, quick_subset: bool, types: Option<&str>) -> Summary {
     let mut sum = Summary::default();
-    let sents = slice_entries();
-    let ients = index_entries();
+    let mut sents = slice_entries();
+    let mut ients = index_entries();
+    if let Some(t) = types {
+        let want: Vec<&str> = t.split(',').collect();
+        sents.retain(|e| want.contains(&e.ty.name()));
+        ients.retain(|e| want.contains(&e.ty.name()) || want.iter().any(|w| e.name.starts_with(&format!("{w}::"))));
+    }
     let mut ctx = MemCtx::new(mem);
     for k in ["SHORT_SLICE", "MISALIGNED_SLICE", "GUARD_ADJACENT", "TAIL_CONTENT", "BAD_INDEX"] {
         sum.faults_fired.insert(k.into(), 0);
         sum.faults_effective.insert(k.into(), 0);
     }
-    let scases = all_slice_cases(&sents, rounds, quick_subset);
+    let scases = all_slice_cases(&sents, rounds, quick_subset, mem == Mem::Heap);
     for (ci, c) in scases.iter().enumerate() {
         let e = &sents[c.ei];
         let n = e.ty.n();
@@ -708,12 +720,12 @@ pub fn run(seed: u64, rounds: usize, mem: Mem, quick_subset: bool) -> Summary {
                 sum.effective("BAD_INDEX");
             }
         }
-        let cj = json!({"kind": "index", "fn": e.name, "i": c.i as i64, "j": c.j as i64, "round": c.round});
+        let cj = || json!({"kind": "index", "fn": e.name, "i": c.i as i64, "j": c.j as i64, "round": c.round});
         if sum.samples.len() < 8 && ci % (icases.len() / 4 + 1) == 0 {
-            sum.samples.push(cj.clone());
+            sum.samples.push(cj());
         }
         if let Some((class, detail)) = viol {
-            let rj = replay_json(cj, seed, mem, &class, &detail);
+            let rj = replay_json(cj(), seed, mem, &class, &detail);
             sum.violations.push(Violation { class, detail, replay: rj });
         }
     }
